@@ -88,6 +88,9 @@ type Reg struct {
 	// Nested: identities this constructor resolves from its injected Scope while it
 	// runs (service-locator style), on its first invocation only.
 	Nested []Dep `json:"nested,omitempty"`
+	// ChildAt: on this invocation (1-based; 0 = never) the constructor creates a child scope on its
+	// injected Scope while it runs, with a nil context (user code calling back into the container).
+	ChildAt int `json:"child_at,omitempty"`
 }
 
 type Spec struct {
@@ -254,12 +257,12 @@ type World struct {
 	PanicVals []any
 	given     map[int]any
 	fns       map[int]any
-	via       string
+	via       map[int]string // per thread: how the constructor calls currently made by that thread were reached
 }
 
 func NewWorld(spec *Spec) *World {
 	return &World{Spec: spec, serial: map[int]int{}, Faults: map[string]string{}, CloseFail: map[string]bool{},
-		given: map[int]any{}, fns: map[int]any{}}
+		given: map[int]any{}, fns: map[int]any{}, via: map[int]string{}}
 }
 
 func (w *World) tick() int {
@@ -489,7 +492,7 @@ func (w *World) Body(r *Reg, ft reflect.Type) func(args []reflect.Value) []refle
 		vsched.Yield("ctor")
 		w.mu.Lock()
 		w.serial[r.ID]++
-		call := &Call{Reg: r.ID, Serial: w.serial[r.ID], Thread: vsched.ThreadID(), Start: w.tick(), Via: w.via}
+		call := &Call{Reg: r.ID, Serial: w.serial[r.ID], Thread: vsched.ThreadID(), Start: w.tick(), Via: w.via[vsched.ThreadID()]}
 		w.Calls = append(w.Calls, call)
 		w.Events = append(w.Events, Event{Stamp: call.Start, Kind: "ctor-start", Call: call, Thread: call.Thread})
 		if r.In {
@@ -524,9 +527,10 @@ func (w *World) Body(r *Reg, ft reflect.Type) func(args []reflect.Value) []refle
 				}
 			}
 			if sc != nil {
-				prevVia := w.via
+				tid := vsched.ThreadID()
+				prevVia := w.via[tid]
 				if viaProvider {
-					w.via = "provider"
+					w.via[tid] = "provider"
 				}
 				w.mu.Unlock()
 				for _, nd := range r.Nested {
@@ -544,7 +548,28 @@ func (w *World) Body(r *Reg, ft reflect.Type) func(args []reflect.Value) []refle
 					}
 				}
 				w.mu.Lock()
-				w.via = prevVia
+				w.via[tid] = prevVia
+			}
+		}
+		if r.ChildAt != 0 && call.Serial == r.ChildAt {
+			for _, a := range call.Args {
+				if a.Kind != "scope" {
+					continue
+				}
+				sc, _ := a.Ref.(godi.Scope)
+				tid := vsched.ThreadID()
+				prevVia := w.via[tid]
+				w.via[tid] = "child" // constructor calls made for the child scope's own initializers
+				w.mu.Unlock()
+				_, err := sc.CreateScope(nil)
+				w.mu.Lock()
+				w.via[tid] = prevVia
+				if err != nil {
+					call.Nested = append(call.Nested, Arg{Kind: "err:" + ClassOf(err)})
+				} else {
+					call.Nested = append(call.Nested, Arg{Kind: "child-scope"})
+				}
+				break
 			}
 		}
 		fault := w.Faults[fmt.Sprintf("%d:%d", r.ID, call.Serial)]
